@@ -354,7 +354,8 @@ fn c17_round(r: &mut Rng, rep: &mut Report, b: &mut Buckets, big: bool) {
         rep.violation("C17", "not-injective", "a changed program keeps its address".into(), case("program", json!(hex::encode(&prog.0))));
     }
     // --- contract
-    let np = if big { *r.pick(&[0usize, 1, 99, 100]) } else { r.below(5) };
+    // (the address is defined for any number of predicates; 100 is the validator's limit)
+    let np = if big { *r.pick(&[0usize, 1, 99, 100, 101, 130]) } else { r.below(5) };
     let mut preds: Vec<Predicate> = (0..np).map(|_| gen_predicate(r, false)).collect();
     if np >= 2 && r.chance(0.3) {
         preds[1] = preds[0].clone(); // duplicates: a multiset, not a set
@@ -437,7 +438,7 @@ fn c17_round(r: &mut Rng, rep: &mut Report, b: &mut Buckets, big: bool) {
     rep.count("perturbations");
     rep.nontrivial(crate::rng::fnv(&own));
     // --- solution set
-    let ns = if big { *r.pick(&[1usize, 2, 99, 100]) } else { 1 + r.below(5) };
+    let ns = if big { *r.pick(&[1usize, 2, 99, 100, 101, 130]) } else { 1 + r.below(5) };
     let mut sols: Vec<Solution> = (0..ns).map(|_| gen_solution(r, false)).collect();
     if ns >= 2 && r.chance(0.3) {
         sols[1] = sols[0].clone();
